@@ -206,6 +206,7 @@ def State.init {κ : Type} : State κ := { db := [], pend := [], file := [] }
 inductive Op where
   | store (p : Pt) (outs : Outs)
   | exportFile (append : Bool)
+  | reload
   deriving Repr
 
 /-- `Database.store`: the point is first recorded as pending, then the data are updated. -/
@@ -220,46 +221,6 @@ def doExport {κ : Type} (s : State κ) (append : Bool) : Option (State κ) :=
     (appendPending s.db s.file (s.pend.map (·.2))).map (fun F => { db := s.db, pend := [], file := F })
   else
     (exportAll s.db).map (fun F => { db := s.db, pend := [], file := F })
-
-def step {κ : Type} [DecidableEq κ] (H : Pt → κ) (s : State κ) : Op → Option (State κ)
-  | .store p o => some (doStore H s p o)
-  | .exportFile a => doExport s a
-
-def run {κ : Type} [DecidableEq κ] (H : Pt → κ) : State κ → List Op → Option (State κ)
-  | s, [] => some s
-  | s, op :: ops =>
-    match step H s op with
-    | some s' => run H s' ops
-    | none => none
-
-/-! ### The quantifier of the property, as a checker -/
-
-def nodupB : List String → Bool
-  | [] => true
-  | a :: t => !(t.contains a) && nodupB t
-
-/-- Is the operation inside the property's quantifier at this state? A store must pass a dict
-    (distinct names) and must not change an output that is already in the file entry of its
-    point (it may repeat the current value). Exports are always in scope. -/
-def inScopeB {κ : Type} (s : State κ) : Op → Bool
-  | .exportFile _ => true
-  | .store p o =>
-    nodupB (o.map (·.1)) &&
-      match dbIndex p s.db, alook p s.db with
-      | some i, some outs =>
-        match alook i s.file with
-        | some e => o.all (fun nv => !(e.keys.contains nv.1) || (alook nv.1 outs == some nv.2))
-        | none => true
-      | _, _ => true
-
-/-- The whole history is in scope (checked along the run). -/
-def scopedB {κ : Type} [DecidableEq κ] (H : Pt → κ) : State κ → List Op → Bool
-  | _, [] => true
-  | s, op :: ops =>
-    inScopeB s op &&
-      match step H s op with
-      | some s' => scopedB H s' ops
-      | none => true
 
 /-! ### Reading the file back (`update_from_file` into an empty database) -/
 
@@ -283,6 +244,57 @@ def readFile (F : File) : Option Db :=
     match optAll (es.map (fun e => (decodeEntry e).map (fun o => (e.x, o)))) with
     | none => none
     | some ds => some (ds.foldl (fun db po => dbStore db po.1 po.2) [])
+
+/-- A new `Database` filled by `update_from_hdf` (what `Database.from_hdf` and the `load` option of
+    the scenario backups do): the content is what the file holds, every point is pending again
+    (it went through `store`), the file is untouched. Stores made since the last export are lost. -/
+def doReload {κ : Type} [DecidableEq κ] (H : Pt → κ) (s : State κ) : Option (State κ) :=
+  match readFile s.file with
+  | none => none
+  | some d =>
+    some { db := d, pend := d.foldl (fun pend po => addPending H pend po.1) [], file := s.file }
+
+def step {κ : Type} [DecidableEq κ] (H : Pt → κ) (s : State κ) : Op → Option (State κ)
+  | .store p o => some (doStore H s p o)
+  | .exportFile a => doExport s a
+  | .reload => doReload H s
+
+def run {κ : Type} [DecidableEq κ] (H : Pt → κ) : State κ → List Op → Option (State κ)
+  | s, [] => some s
+  | s, op :: ops =>
+    match step H s op with
+    | some s' => run H s' ops
+    | none => none
+
+/-! ### The quantifier of the property, as a checker -/
+
+def nodupB : List String → Bool
+  | [] => true
+  | a :: t => !(t.contains a) && nodupB t
+
+/-- Is the operation inside the property's quantifier at this state? A store must pass a dict
+    (distinct names) and must not change an output that is already in the file entry of its
+    point (it may repeat the current value). Exports are always in scope. -/
+def inScopeB {κ : Type} (s : State κ) : Op → Bool
+  | .exportFile _ => true
+  | .reload => true
+  | .store p o =>
+    nodupB (o.map (·.1)) &&
+      match dbIndex p s.db, alook p s.db with
+      | some i, some outs =>
+        match alook i s.file with
+        | some e => o.all (fun nv => !(e.keys.contains nv.1) || (alook nv.1 outs == some nv.2))
+        | none => true
+      | _, _ => true
+
+/-- The whole history is in scope (checked along the run). -/
+def scopedB {κ : Type} [DecidableEq κ] (H : Pt → κ) : State κ → List Op → Bool
+  | _, [] => true
+  | s, op :: ops =>
+    inScopeB s op &&
+      match step H s op with
+      | some s' => scopedB H s' ops
+      | none => true
 
 /-! ### Design-space files -/
 
